@@ -790,4 +790,102 @@ theorem keys_childrenAt (cs : List (String × PNode V)) (d : Int) :
       rw [List.filter_cons_of_neg (by simpa using hdef.symm)]
       exact ih
 
+theorem childrenAt_append (cs₁ cs₂ : List (String × PNode V)) (d : Int) :
+    childrenAt (cs₁ ++ cs₂) d = childrenAt cs₁ d ++ childrenAt cs₂ d := by
+  induction cs₁ with
+  | nil => simp [childrenAt]
+  | cons p r ih =>
+    obtain ⟨k, c⟩ := p
+    simp only [List.cons_append, childrenAt]
+    split
+    · simp [ih]
+    · exact ih
+
+theorem lookup_none_of_not_mem {β : Type} (k : String) (l : List (String × β))
+    (h : k ∉ l.map (·.1)) : l.lookup k = none := by
+  induction l with
+  | nil => rfl
+  | cons p r ih =>
+    obtain ⟨k', b⟩ := p
+    simp only [List.map_cons, List.mem_cons, not_or] at h
+    simp only [List.lookup_cons]
+    have : (k == k') = false := by simpa using h.1
+    rw [this]
+    exact ih h.2
+
+/-- access by name (`node_at.name`, `node_at[name]`): the named child's own value at `d`;
+    nothing (the access raises) when there is no such child or it is not defined at `d` -/
+theorem lookup_childrenAt (cs : List (String × PNode V)) (d : Int) (k : String)
+    (hnd : (cs.map (·.1)).Nodup) :
+    (childrenAt cs d).lookup k = (cs.lookup k).bind (fun c => c.atInstant d) := by
+  induction cs with
+  | nil => simp [childrenAt]
+  | cons p r ih =>
+    obtain ⟨k', c⟩ := p
+    rw [List.map_cons, List.nodup_cons] at hnd
+    simp only [childrenAt, List.lookup_cons]
+    split
+    · rename_i s hs
+      simp only [List.lookup_cons]
+      cases hk : (k == k') with
+      | true => simp [hs]
+      | false => exact ih hnd.2
+    · rename_i hs
+      cases hk : (k == k') with
+      | true =>
+        have hkk : k = k' := by simpa using hk
+        have hnone : (childrenAt r d).lookup k = none := by
+          apply lookup_none_of_not_mem
+          rw [keys_childrenAt, hkk]
+          intro hm
+          obtain ⟨q, hq, hq1⟩ := List.mem_map.mp hm
+          exact hnd.1 (List.mem_map.mpr ⟨q, (List.mem_filter.mp hq).1, hq1⟩)
+        simp [hnone, hs]
+      | false => exact ih hnd.2
+
+theorem addChild_ok_iff (cs : List (String × PNode V)) (name : String) (c : PNode V) :
+    (addChild cs name c = .ok (cs ++ [(name, c)]) ↔ name ∉ cs.map (·.1)) ∧
+    ((∃ e, addChild cs name c = .error e) ↔ name ∈ cs.map (·.1)) := by
+  have hany : (cs.any (fun p => p.1 == name) = true) ↔ name ∈ cs.map (·.1) := by
+    simp only [List.any_eq_true, List.mem_map, beq_iff_eq]
+  unfold addChild
+  by_cases h : cs.any (fun p => p.1 == name) = true
+  · rw [if_pos h]
+    constructor
+    · constructor
+      · intro c'; cases c'
+      · intro hn; exact absurd (hany.mp h) hn
+    · constructor
+      · intro _; exact hany.mp h
+      · intro _; exact ⟨_, rfl⟩
+  · rw [if_neg h]
+    constructor
+    · constructor
+      · intro _ hm; exact h (hany.mpr hm)
+      · intro _; rfl
+    · constructor
+      · rintro ⟨e, he⟩; cases he
+      · intro hm; exact absurd (hany.mpr hm) h
+
+theorem mergeChildren_ok (cs other : List (String × PNode V))
+    (hdisj : ∀ k ∈ other.map (·.1), k ∉ cs.map (·.1)) (hnd : (other.map (·.1)).Nodup) :
+    mergeChildren cs other = .ok (cs ++ other) := by
+  induction other generalizing cs with
+  | nil => simp [mergeChildren]
+  | cons p rest ih =>
+    obtain ⟨k, c⟩ := p
+    rw [List.map_cons, List.nodup_cons] at hnd
+    have hk : k ∉ cs.map (·.1) := hdisj k (by simp)
+    simp only [mergeChildren]
+    rw [((addChild_ok_iff cs k c).1).mpr hk]
+    simp only []
+    rw [ih (cs ++ [(k, c)]) ?_ hnd.2]
+    · simp
+    · intro k' hk' hm
+      simp only [List.map_append, List.map_cons, List.map_nil, List.mem_append, List.mem_singleton] at hm
+      rcases hm with hm | hm
+      · exact hdisj k' (by simp only [List.map_cons, List.mem_cons]; exact Or.inr hk') hm
+      · subst hm; exact hnd.1 hk'
+
+
 end OFCore.Param
